@@ -49,13 +49,17 @@ mod verif_c14_remote_cids {
 
     fn noop_wake(_w: &ArcSendWaker, _s: Signals) {}
 
-    // fail-if-reached stubs for the rejecting paths (see unit c14_local_cids)
-    fn unreachable_insert<T: Default + Clone, const LIMIT: u64>(
+    // recording stub for the rejecting paths (see unit c14_local_cids): the table must not be touched
+    static TOUCHED: core::sync::atomic::AtomicBool = core::sync::atomic::AtomicBool::new(false);
+    fn touched() -> bool {
+        TOUCHED.load(core::sync::atomic::Ordering::Relaxed)
+    }
+    fn recording_insert<T: Default + Clone, const LIMIT: u64>(
         _d: &mut IndexDeque<T, LIMIT>,
         _idx: u64,
         _v: T,
     ) -> Result<Option<T>, crate::util::IndexError> {
-        assert!(false, "C04.remote_cid.rejecting_path.table_not_written");
+        TOUCHED.store(true, core::sync::atomic::Ordering::Relaxed);
         Ok(None)
     }
 
@@ -63,15 +67,9 @@ mod verif_c14_remote_cids {
         NewConnectionIdFrame::new(cid(0x40), VarInt::from_u64(seq).unwrap(), VarInt::from_u64(rpt).unwrap())
     }
 
-    /// "rejects an issue that exceeds its own limit" as far as the code's own rule goes, and frames below the
-    /// retired window are ignored: in both cases NOTHING is done (no table growth, no frame emitted).
-    #[kani::proof]
-    #[kani::unwind(3)]
-    #[kani::stub(crate::token::ResetToken::random_gen, stub_token)]
-    #[kani::stub(alloc::fmt::format, stub_format)]
-    #[kani::stub(crate::util::IndexDeque::insert, unreachable_insert)]
-    fn new_cid_rejecting_paths_contract() {
-        let c = Counters::default();
+    /// NEW_CONNECTION_ID on the two rejecting paths (over the limit rule / below the retired window), every
+    /// limit, window start, sequence number and retire-prior-to.  Returns what the contracts look at.
+    fn run_rejecting(c: &Counters) -> (bool, bool, bool, bool) {
         let limit: u64 = kani::any();
         let first: u64 = kani::any(); // ids below `first` already retired (cid_deque.offset)
         let seq: u64 = kani::any();
@@ -79,21 +77,50 @@ mod verif_c14_remote_cids {
         kani::assume(limit >= 2 && limit <= VARINT_MAX); // our own active_connection_id_limit (>= 2 by RFC 9000 18.2)
         kani::assume(first <= VARINT_MAX && seq <= VARINT_MAX);
         kani::assume(rpt <= seq); // enforced by be_new_connection_id_frame (FRAME_ENCODING_ERROR otherwise)
-        let mut rc = RemoteCids::new(limit, Probe(&c));
+        let mut rc = RemoteCids::new(limit, Probe(c));
         rc.cid_deque.reset_offset(first);
         rc.ready_cells.reset_offset(first);
         rc.cursor = first;
         kani::assume(seq - rpt > limit || seq < first);
         let r = rc.recv_new_cid_frame(frame(seq, rpt));
-        if seq - rpt > limit {
-            assert!(matches!(r.as_ref().map_err(|e| e.kind()), Err(ErrorKind::ConnectionIdLimit)), "C14.remote.new_cid.over_limit_is_connection_id_limit_error");
-        } else {
-            assert!(matches!(r, Ok(None)), "C14.remote.new_cid.below_window_ignored");
-        }
-        assert!(rc.cid_deque.len() == 0 && rc.cid_deque.offset() == first && rc.cursor == first && rc.ready_cells.offset() == first, "C04.remote_cid.new_cid.rejected_not_acted_on");
-        assert!(c.frames.get() == 0, "C04.remote_cid.new_cid.rejected_emits_nothing");
+        let over = seq - rpt > limit;
+        let err_ok = matches!(r.as_ref().map_err(|e| e.kind()), Err(ErrorKind::ConnectionIdLimit));
+        let ignored = matches!(r, Ok(None));
+        let unchanged = rc.cid_deque.len() == 0 && rc.cid_deque.offset() == first && rc.cursor == first && rc.ready_cells.offset() == first;
         kani::cover!(r.is_err(), "C14.remote.new_cid.reach_err");
-        kani::cover!(matches!(r, Ok(None)), "C14.remote.new_cid.reach_ignored");
+        kani::cover!(ignored, "C14.remote.new_cid.reach_ignored");
+        (over, err_ok, ignored, unchanged)
+    }
+
+    /// "rejects an issue that exceeds its own limit" (as far as the code's own rule goes; see the off-by-one
+    /// finding below) with CONNECTION_ID_LIMIT_ERROR; frames below the retired window are ignored
+    #[kani::proof]
+    #[kani::unwind(3)]
+    #[kani::stub(crate::token::ResetToken::random_gen, stub_token)]
+    #[kani::stub(alloc::fmt::format, stub_format)]
+    #[kani::stub(crate::util::IndexDeque::insert, recording_insert)]
+    fn new_cid_rejecting_paths_contract() {
+        let c = Counters::default();
+        let (over, err_ok, ignored, unchanged) = run_rejecting(&c);
+        if over {
+            assert!(err_ok, "C14.remote.new_cid.over_limit_is_connection_id_limit_error");
+        } else {
+            assert!(ignored, "C14.remote.new_cid.below_window_ignored");
+        }
+        assert!(unchanged, "C14.remote.new_cid.rejected_leaves_table");
+    }
+
+    /// ... and in both cases NOTHING is done (table not touched, no frame emitted)
+    #[kani::proof]
+    #[kani::unwind(3)]
+    #[kani::stub(crate::token::ResetToken::random_gen, stub_token)]
+    #[kani::stub(alloc::fmt::format, stub_format)]
+    #[kani::stub(crate::util::IndexDeque::insert, recording_insert)]
+    fn new_cid_rejected_not_acted_on() {
+        let c = Counters::default();
+        let (_over, _err_ok, _ignored, unchanged) = run_rejecting(&c);
+        assert!(!touched() && unchanged, "C04.remote_cid.new_cid.rejected_not_acted_on");
+        assert!(c.frames.get() == 0, "C04.remote_cid.new_cid.rejected_emits_nothing");
     }
 
     fn active(rc: &RemoteCids<Probe<'_>>) -> u64 {
